@@ -1,15 +1,15 @@
-\* repaired protocol, update channel scaled to 2 slots, 2 connections x 2 callers
+\* repaired protocol, update channel scaled to 2 slots, 2 connections x 2 callers, heads 0..2
 CONSTANTS
   NC = 2
   Waiters = {w1, w2}
   None = none
   RunP = run
-  MaxSeq = 3
+  MaxSeq = 2
   Steps = {1}
-  Wants = {2, 4}
+  Wants = {2, 3}
   Timeouts = {1}
   UpdCap = 2
-  MaxTime = 2
+  MaxTime = 1
   Strategy = "first-working"
   Rtt0 <- Rtt_00
   MaxFlips = 0
